@@ -36,6 +36,16 @@ def _fresh_arr(ctx, base="bytes"):
     return ctx.fresh(base, z3.ArraySort(I, I))
 
 
+def _named(ctx, t, base="len"):
+    """A constant standing for the term (terms with `ite` / `store` cannot be used inside quantifier patterns)."""
+    t = V.Int.unwrap(t) if not z3.is_array(t) else t
+    if z3.is_const(t):
+        return t
+    c = ctx.fresh(base, t.sort())
+    ctx.pc.append(c == t)
+    return c
+
+
 def from_concrete(ctx, b: bytes, mutable=False) -> BytesV:
     arr = z3.K(I, z3.IntVal(0))
     for i, x in enumerate(b):
@@ -135,6 +145,7 @@ def int_bitop(lib, ctx, op, a, b, ta, tb):
                 bt.USED.add("or-disjoint")
                 _in_spec(ctx, lambda: bt.pow2_facts(n))
                 ctx.pc.append(z3.Implies(z3.And(x >= 0, x < bt.pow2(n), v >= 0, n >= 0), res == x + v * bt.pow2(n)))
+                note(ctx, res, "setbit", (x, v), n)
                 return res
         return e.uf("bor", I, I, I)(ta, tb)
     if isinstance(op, ast.BitAnd):
@@ -145,7 +156,9 @@ def int_bitop(lib, ctx, op, a, b, ta, tb):
             if r is not None and r[0] == "notbit":
                 k = r[2]
                 bit = _in_spec(ctx, lambda: bt.bitof_term(x, k))
-                return x - bit * bt.pow2(k)
+                res = x - bit * bt.pow2(k)
+                note(ctx, res, "clearbit", (x, z3.IntVal(0)), k)
+                return res
         raise EngineLimit("bitwise and with a non-mask operand")
     raise EngineLimit("bit operator %s" % type(op).__name__)
 
@@ -162,7 +175,7 @@ def bytes_binop(lib, ctx, op, a, b):
             return from_concrete(ctx, x.concrete * k)
         if x.concrete == b"\x00":
             kt = V.Int.unwrap(k)
-            n = z3.If(kt > 0, kt, 0)
+            n = _named(ctx, z3.If(kt > 0, kt, 0))
             out = BytesV(z3.K(I, z3.IntVal(0)), n, concrete=None)
             out.zeros = True
             return out
@@ -184,7 +197,7 @@ def concat(lib, ctx, a: BytesV, b: BytesV) -> BytesV:
     view = None
     if is_zeros(b) and a.view is not None:
         view = a.view  # zero padding: the zero-extended content is unchanged
-    out = BytesV(arr, la + lb, mutable=a.mutable, view=view)
+    out = BytesV(arr, _named(ctx, la + lb), mutable=a.mutable, view=view)
     out.parts = (a, b)
     return out
 
@@ -219,7 +232,7 @@ def bytes_getslice(lib, ctx, o: BytesV, lo, hi):
     if lo is not None and hi is not None and not lib.e.feasible(ctx, lo_t < 0) and not lib.e.feasible(ctx, hi_t < lo_t):
         # 0 <= lo <= hi: zero-extended byte i of the slice equals zero-extended byte lo + i of the source for i < hi - lo
         view = (o.arr, n, lo_t, hi_t - lo_t)
-    return BytesV(arr, ln, mutable=o.mutable, view=view)
+    return BytesV(arr, _named(ctx, ln), mutable=o.mutable, view=view)
 
 
 def bytes_setitem(lib, ctx, o: BytesV, k, v):
@@ -234,11 +247,35 @@ def bytes_setitem(lib, ctx, o: BytesV, k, v):
     if ctx.decide(z3.Or(idx < 0, idx >= n)):
         raise lib.raise_ext("IndexError", "bytearray index out of range")
     vt = V.Int.unwrap(v)
+    old_arr = o.arr
+    new_arr = _named(ctx, z3.Store(o.arr, idx, vt), "stored")
+    r = info(ctx, vt)
+    if r is not None and r[0] in ("setbit", "clearbit") and z3.is_select(r[1][0]) and r[1][0].arg(0).eq(old_arr) \
+            and z3.simplify(r[1][0].arg(1) == idx).eq(z3.BoolVal(True)):
+        setbit_facts(lib, ctx, old_arr, new_arr, n, idx, r[2], r[1][1] if r[0] == "setbit" else z3.IntVal(0), vt)
     if ctx.decide(z3.Or(vt < 0, vt > 255)):
         raise lib.raise_ext("ValueError", "byte must be in range(0, 256)")
-    old_arr = o.arr
-    o.arr = z3.Store(o.arr, idx, vt)
-    o.last_store = (old_arr, idx, vt)
+    o.arr = new_arr
+    o.view = None
+
+
+def setbit_facts(lib, ctx, d, d2, n, q, r, b, v):
+    """d2 = d with byte q replaced by  d[q] | (b << r)  (b = 1)  or  d[q] & ~(1 << r)  (b = 0), where every bit of d from
+       position p = 8q + r upwards (inside the buffer) is zero.  Lean Bits.set_bit_read / set_bit_below / set_bit_tail /
+       set_bit_byte_range: the new byte is a byte; a read that ends with bit p gains b * 2^(k-1); reads that end at or
+       before p are unchanged; every bit above p is still zero."""
+    p = 8 * q + r
+    hyp = z3.And(q >= 0, q < n, r >= 0, r <= 7, z3.Or(b == 0, b == 1), bt.bitsval_f(d, n, p, 8 * n - p) == 0)
+    bt.USED.add("bitsval-setbit")
+    off, k = z3.FreshConst(I, "off"), z3.FreshConst(I, "k")
+    ctx.pc.append(z3.Implies(hyp, z3.And(v >= 0, v <= 255)))
+    ctx.add_axiom(z3.ForAll([off, k], z3.Implies(z3.And(hyp, off >= 0, k >= 1, off + k == p + 1),
+                                                 bt.bitsval_f(d2, n, off, k) == bt.bitsval_f(d, n, off, k - 1) + b * bt.pow2_f(k - 1)),
+                            patterns=[bt.bitsval_f(d2, n, off, k)]))
+    ctx.add_axiom(z3.ForAll([off, k], z3.Implies(z3.And(hyp, off >= 0, k >= 0, off + k <= p),
+                                                 bt.bitsval_f(d2, n, off, k) == bt.bitsval_f(d, n, off, k)),
+                            patterns=[bt.bitsval_f(d2, n, off, k)]))
+    ctx.pc.append(z3.Implies(hyp, bt.bitsval_f(d2, n, p + 1, 8 * n - p - 1) == 0))
 
 
 # ---------------------------------------------------------------------------------------------- constructors
@@ -319,10 +356,11 @@ def m_bytes_append(lib, ctx, o: BytesV, x):
         raise lib.raise_ext("ValueError", "byte must be in range(0, 256)")
     n = V.Int.unwrap(o.length)
     old = (o.arr, n)
-    o.arr = z3.Store(o.arr, n, xt)
-    o.length = n + 1
+    o.arr = _named(ctx, z3.Store(o.arr, n, xt), "appended")
+    o.length = _named(ctx, n + 1)
     o.view = None
-    append_facts(lib, ctx, old, (o.arr, o.length), n, 1, z3.Store(z3.K(I, z3.IntVal(0)), 0, xt))
+    is_zero = z3.is_int_value(z3.simplify(xt)) and z3.simplify(xt).as_long() == 0
+    append_facts(lib, ctx, old, (o.arr, o.length), n, z3.IntVal(1), z3.Store(z3.K(I, z3.IntVal(0)), 0, xt), zeros=is_zero)
 
 
 def m_bytes_extend(lib, ctx, o: BytesV, xs):
@@ -341,7 +379,7 @@ def m_bytes_extend(lib, ctx, o: BytesV, xs):
     ctx.add_axiom(z3.ForAll([i], z3.Select(arr, i) == z3.If(i < n, z3.Select(o.arr, i), z3.Select(xs.arr, i - n)),
                             patterns=[z3.Select(arr, i)]))
     o.arr = arr
-    o.length = n + m
+    o.length = _named(ctx, n + m)
     o.view = None
     append_facts(lib, ctx, old, (o.arr, o.length), n, m, xs.arr, zeros=is_zeros(xs))
 
